@@ -344,21 +344,39 @@ theorem postValueV2_total (p : Parser) (lastPromptLine out : Str) : ∃ v, postV
 contains a template sink, rewritten from the working tree before every build. -/
 
 open NemoVerif.DataflowIR in
+/-- the provenance classes of *conversation data*: text the LLM produced (`llm`), values stored in the context (`context`: the
+    previous bot message, generated values, action results) and the event history (`history`).  None of them may reach the
+    SOURCE of a template. -/
+def dataOrigins : List Origin := [.llm, .context, .history]
+
+open NemoVerif.DataflowIR in
 /-- (finite fact about generated data, kernel evaluation) the abstract interpreter is conclusive on every generated function
-    and reports no sink whose template expression may carry LLM text -/
+    and reports no sink whose template expression may carry conversation data of any of the three classes -/
 theorem generated_sinks_checked :
-    NemoVerif.Generated.C17Dataflow.funcs.all (fun f => safe .llm f.prog f.initLlm) = true := by decide +kernel
+    NemoVerif.Generated.C17Dataflow.funcs.all (fun f => dataOrigins.all (fun o => safe o f.prog f.initLlm)) = true := by
+  decide +kernel
 
 open NemoVerif.DataflowIR in
 /-- **llm_text_not_rendered (IR)**: in every function of the three modules, on EVERY run (any branch choices, any loop counts)
-    started with LLM text at most in `events` / the 2.x `state`, no template sink (`_render_string`, `from_string`, `Template`,
-    `render_task_prompt(task=…)`) receives a template expression that may carry LLM text. -/
+    started with conversation data at most in `events` / `context` / the 2.x `state`, no template sink (`_render_string`,
+    `from_string`, `Template`, `render_task_prompt(task=…)`) receives a template expression that may carry LLM text, a context
+    value or history text.  For `_render_string` itself (phase 4) this is: the source given to `from_string` depends on the
+    `template_str` parameter and literals only; a context value enters the rendering only as a binding of `render(...)`. -/
 theorem llm_text_not_rendered_ir :
-    ∀ f ∈ NemoVerif.Generated.C17Dataflow.funcs, ∀ (e e' : Env) (l : List (Nat × Bool)),
-      Run .llm f.prog e e' l → Abstracts e f.initLlm → ∀ s ∈ l, s.2 = false := by
-  intro f hf e e' l hrun hinit
-  have h := List.all_eq_true.1 generated_sinks_checked f hf
-  exact safe_sound .llm f.prog f.initLlm (by simpa using h) e e' l hrun hinit
+    ∀ f ∈ NemoVerif.Generated.C17Dataflow.funcs, ∀ o ∈ dataOrigins, ∀ (e e' : Env) (l : List (Nat × Bool)),
+      Run o f.prog e e' l → Abstracts e f.initLlm → ∀ s ∈ l, s.2 = false := by
+  intro f hf o ho e e' l hrun hinit
+  have h := List.all_eq_true.1 (List.all_eq_true.1 generated_sinks_checked f hf) o ho
+  exact safe_sound o f.prog f.initLlm h e e' l hrun hinit
+
+open NemoVerif.DataflowIR in
+/-- (finite fact about generated data) the theorem above is not vacuous about the renderer of predefined bot messages:
+    `LLMGenerationActions._render_string` is among the generated functions, its template-engine sink `from_string` is listed,
+    and `context` is one of the variables assumed to carry conversation data on entry. -/
+theorem render_string_is_modelled :
+    NemoVerif.Generated.C17Dataflow.funcs.any (fun f =>
+      f.file == "nemoguardrails/actions/llm/generation.py" && f.name == "_render_string"
+        && f.sinks.any (fun s => s.2.1 == "from_string") && !f.initLlm.isEmpty) = true := by decide +kernel
 
 open NemoVerif.DataflowIR in
 /-- non-vacuity: the analysis does flag the mutant "render what the LLM returned" and that sink is reachable in the semantics -/
@@ -367,6 +385,15 @@ example : safe .llm (.seq (.assign 0 [] [.llm]) (.ite (.render 0 [1] [.config]) 
 open NemoVerif.DataflowIR in
 example : ∃ e' l, Run .llm (.seq (.assign 0 [] [.llm]) (.render 1 [0] [])) (fun _ => false) e' l ∧ (1, true) ∈ l :=
   ⟨_, _, .seq (.assign _ 0 [] [.llm]) (.render _ 1 [0] []), by simp [carries, Env.set]⟩
+
+open NemoVerif.DataflowIR in
+/-- non-vacuity (phase 4): the shape "a callback that reads `context` (variable 2) is handed to `re.sub` whose result becomes
+    the template source" is flagged, both through the entry variable and through the `context` class itself; the unchanged
+    shape (the loop rewrites `$x` to `{{x}}` from the template alone, `context` only feeds `render_context`) is accepted. -/
+example : safe .llm (.seq (.assign 3 [2] [.context, .lit]) (.seq (.assign 1 [1, 3] [.lit]) (.render 0 [1] []))) [2] = false
+    ∧ safe .context (.seq (.assign 3 [2] [.context, .lit]) (.seq (.assign 1 [1, 3] [.lit]) (.render 0 [1] []))) [2] = false
+    ∧ dataOrigins.all (fun o => safe o (.seq (.loop (.seq (.assign 4 [1] [.lit]) (.assign 1 [1, 4] [.lit])))
+        (.seq (.render 0 [1] []) (.assign 9 [2, 9] [.context]))) [2]) = true := by decide
 
 /-! ## Witnesses for the parts of the second sentence of C17 that are NOT claimed (open findings, by design)
 
